@@ -857,6 +857,12 @@ def c05_gate(ctx, M):
                 ctx.violation("C05.R2", "C05.R2|comparator-args", "the gate comparator is not applied to (If-Range value, entity ETag): %s, %s" % (sa[:80], sb[:80]), where=where(e))
     for cls, n in sorted(classes.items()):
         ctx.ok("C05.R1", "gate row: " + cls, detail={"paths": n})
+    # non-vacuity of the positive clauses: a Range without If-Range, and a Range with the matching strong tag, are honoured
+    if not any(c.startswith("If-Range=None") and c.endswith("Range kept") for c in classes):
+        ctx.violation("C05.R1", "C05.R1|no-keep-row|no-if-range", "no path honours the Range header of a request without If-Range")
+    if not any(c.startswith("If-Range=Some etag=Some") and "comparator=1" in c and c.endswith("Range kept") for c in classes):
+        ctx.violation("C05.R1", "C05.R1|no-keep-row|matching-strong-tag",
+                      "no path honours the Range header when If-Range carries the matching strong ETag (the comparator is never reached with an entity-tag form)")
     ctx.ok("C05.R1", "If-Range gate table", detail={"keep_rows": nkeep, "drop_rows": ndrop})
     ctx.floor("C05.R1", min(nkeep, ndrop), 2, what="keep / drop rows of the If-Range gate")
     # R2: the comparator is strong
